@@ -123,6 +123,8 @@ pub fn run_with_timeout(mut cmd: Command, secs: u64) -> Option<std::process::Out
 }
 
 pub struct E2Spec<'a> {
+    /// property id passed to the corpus binary (defaults to the check's id)
+    pub exe_prop: Option<&'a str>,
     pub family: &'a str,
     pub programs: Vec<Program>,
     pub cases: u32,
@@ -177,10 +179,10 @@ pub fn e2_run(ctx: &Ctx, spec: E2Spec) -> Outcome {
             return out;
         }
     };
-    let report_path = dir.join(format!("report_{}.json", ctx.prop));
+    let report_path = dir.join(format!("report_{}.json", spec.exe_prop.unwrap_or(&ctx.prop)));
     let _ = std::fs::remove_file(&report_path);
     let mut cmd = Command::new(&exe);
-    cmd.arg("--prop").arg(&ctx.prop).arg("--seed").arg(ctx.seed.to_string()).arg("--cases").arg(spec.cases.to_string()).arg("--out").arg(&report_path);
+    cmd.arg("--prop").arg(spec.exe_prop.unwrap_or(&ctx.prop)).arg("--seed").arg(ctx.seed.to_string()).arg("--cases").arg(spec.cases.to_string()).arg("--out").arg(&report_path);
     for k in ctx.known_keys() {
         cmd.arg("--known").arg(k);
     }
@@ -310,6 +312,10 @@ pub fn msg_opts_s1() -> GenOpts {
 pub fn replay_programs(ctx: &Ctx) -> Option<Vec<Program>> {
     let path = ctx.replay.as_ref()?;
     let v: Value = serde_json::from_str(&std::fs::read_to_string(path).ok()?).ok()?;
+    if v["program"] == "runtime" || v["engine"] == "E1" {
+        // not a program replay: run nothing program-specific
+        return Some(vec![]);
+    }
     let p: Program = serde_json::from_value(v["model"].clone()).ok()?;
     Some(vec![p])
 }
@@ -324,14 +330,64 @@ fn msg_family(ctx: &Ctx, s2: bool, family: &'static str, rule: &'static str, ass
     let (nprog, cases) = if quick { (48usize, 64u32) } else { (320, 256) };
     let opts = GenOpts { s2_names: s2, ..GenOpts::default() };
     let programs = replay_programs(ctx).unwrap_or_else(|| crate::fam_msg(ctx.seed, nprog, &opts));
-    e2_run(ctx, E2Spec { family, programs, cases, rule, assumptions: assumptions.iter().map(|s| s.to_string()).collect(), alias: None })
+    e2_run(ctx, E2Spec { exe_prop: None, family, programs, cases, rule, assumptions: assumptions.iter().map(|s| s.to_string()).collect(), alias: None })
+}
+
+/// Runtime-only properties (engine E4) run once inside the small `warm` corpus binary.
+fn runtime_prop(ctx: &Ctx, exe_prop: &'static str, rule: &'static str, assumptions: &[&str]) -> Outcome {
+    let programs = crate::fam_msg(1, 2, &GenOpts::default());
+    let cases = if ctx.quick() { 400 } else { 10000 };
+    let mut c2 = Ctx { prop: ctx.prop.clone(), tier: ctx.tier.clone(), seed: ctx.seed, replay: ctx.replay.clone(), known: ctx.known.clone(), t0: ctx.t0 };
+    if let Some(r) = &ctx.replay {
+        // runtime replays carry no program: only pass them on when they belong to this runtime property
+        let v: Value = serde_json::from_str(&std::fs::read_to_string(r).unwrap_or_default()).unwrap_or(Value::Null);
+        if v["program"] != "runtime" {
+            c2.replay = None;
+            return Outcome { rule: rule.to_string(), ..Default::default() };
+        }
+    }
+    let mut out = e2_run(&c2, E2Spec { exe_prop: Some(exe_prop), family: "warm", programs, cases, rule, assumptions: assumptions.iter().map(|s| s.to_string()).collect(), alias: None });
+    out.programs = 0;
+    out
+}
+
+pub fn merge_outcomes(mut a: Outcome, b: Outcome) -> Outcome {
+    a.evaluations += b.evaluations;
+    a.nontrivial += b.nontrivial;
+    a.programs += b.programs;
+    a.rule = format!("{} || {}", a.rule, b.rule);
+    a.samples.extend(b.samples);
+    let mut classes: std::collections::BTreeMap<String, u64> = serde_json::from_value(a.classes.clone()).unwrap_or_default();
+    let cb: std::collections::BTreeMap<String, u64> = serde_json::from_value(b.classes.clone()).unwrap_or_default();
+    for (k, v) in cb {
+        *classes.entry(k).or_insert(0) += v;
+    }
+    a.classes = json!(classes);
+    for x in b.assumptions {
+        if !a.assumptions.contains(&x) {
+            a.assumptions.push(x);
+        }
+    }
+    a.violations.extend(b.violations);
+    for k in b.known_hits {
+        if !a.known_hits.contains(&k) {
+            a.known_hits.push(k);
+        }
+    }
+    if a.inconclusive.is_none() {
+        a.inconclusive = b.inconclusive;
+    }
+    for (k, v) in b.extra {
+        a.extra.insert(k, v);
+    }
+    a
 }
 
 fn reply_family(ctx: &Ctx, any_order: bool, family: &'static str, rule: &'static str, assumptions: &[&str]) -> Outcome {
     let quick = ctx.quick();
     let (nprog, cases) = if quick { (48usize, 200u32) } else { (320, 800) };
     let programs = replay_programs(ctx).unwrap_or_else(|| crate::fam_reply(ctx.seed, nprog, &GenOpts::default(), any_order));
-    e2_run(ctx, E2Spec { family, programs, cases, rule, assumptions: assumptions.iter().map(|s| s.to_string()).collect(), alias: None })
+    e2_run(ctx, E2Spec { exe_prop: None, family, programs, cases, rule, assumptions: assumptions.iter().map(|s| s.to_string()).collect(), alias: None })
 }
 
 const A_REPLY: &str = "reply family domain: 1..3 handler names; per name success-only / error-only / both via two methods / always; methods shared between names via handlers=[..]; all seven data markers; raw / 1..3 typed payload values; generic and custom-typed contracts; reply handlers return the contract's error type and payload types do not mention contract type parameters (both required for such programs to compile)";
@@ -366,9 +422,27 @@ pub fn run(ctx: &Ctx) -> i32 {
         "C04" => msg_family(ctx, true, "fam_msg_s2",
             "fam_msg programs in which names (and often argument lists) are shared between kinds of different parts; for every handler of kind K1 `cases` well-formed K1 documents are sent to the entry point of a different kind K2 (generated entry_points::<k2> and the cw_multi_test::Contract impl); invariant: decoding fails or every handler in the call log is annotated K2. Non-trivial = the K2 entry point accepted the document and ran a handler.",
             &[A_ECHO, A_NATIVE, A_DOMAIN, "reply entry points are covered by the reply family (C07)"]),
-        "C05" => msg_family(ctx, true, "fam_msg_s2",
-            "(c) for every part and kind of every generated program: <ep>_messages() strictly ascending and equal, as a set, to the top-level keys obtained by serialising one value of every variant. Non-trivial = list with >=2 names or a digit-bearing name.",
-            &[A_NATIVE, A_DOMAIN]),
+        "C05" => {
+            let c = msg_family(ctx, true, "fam_msg_s2",
+                "(c) for every part and kind of every generated program: <ep>_messages() strictly ascending and equal, as a set, to the top-level keys obtained by serialising one value of every variant. Non-trivial = list with >=2 names or a digit-bearing name.",
+                &[A_NATIVE, A_DOMAIN]);
+            let a = runtime_prop(ctx, "C05A",
+                "(a) sylvia::utils::assert_no_intersection called at run time: exhaustively all 69 905 tuples of 0..=4 strictly sorted duplicate-free lists over subsets of {a, ab, b, ba} (prefixes occur), plus random tuples of 0..=6 lists of 0..8 arbitrary strings (empty, shared prefixes, multi-byte Unicode; sorted bytewise as the generated code does); oracle = naive pairwise intersection: panics iff some string occurs in two lists. Non-trivial = >=2 non-empty lists whose ranges interleave.",
+                &["lists are sorted and duplicate-free: the precondition the generated code establishes (checked separately by part c)"]);
+            merge_outcomes(c, a)
+        }
+        "C11" => {
+            let b = msg_family(ctx, true, "fam_msg_s2",
+                "(b) fam_msg programs in which custom-typed contracts (msg and/or query) implement interfaces written for Empty (`: custom(msg, query)` flags) next to native ones; per exec/sudo handler `cases` tuples (args, env, response spec with 0..6 sub-messages of every CosmosMsg kind, attributes, events, data); through the contract-level wrapper and the generated entry points: the handler runs once in the caller's storage/env/sender/querier and the caller receives exactly the response the handler returned, or an error and no response iff the bridged response contains a custom-typed message. Non-trivial = bridged handler with >=2 sub-messages of distinct ids and a gas limit, or events + data.",
+                &[A_ECHO, A_NATIVE, A_DOMAIN]);
+            let a = runtime_prop(ctx, "C11A",
+                "(a) IntoResponse::<MyMsg>::into_response over arbitrary Response<Empty>: 0..6 sub-messages of every CosmosMsg variant of the compiled feature set (bank x2, wasm x6, staking, distribution, stargate, ibc, gov, Custom(Empty)) with arbitrary id, payload, gas limit, reply_on; 0..5 attributes; 0..3 events; optional data; oracle: contains Custom => Err, otherwise Ok(r) whose JSON projection equals the input's. Non-trivial = >=2 sub-messages with distinct ids and a gas limit, or events + data.",
+                &["feature set = mt, stargate, iterator, cosmwasm_1_4, staking (what the repository's workspace build unifies to)"]);
+            merge_outcomes(b, a)
+        }
+        "C20" => runtime_prop(ctx, "C20",
+            "arbitrary address strings (plain, bech32-like, quotes, control characters, Unicode) x Remote<T> for T in {a struct, (), unsized str, dyn Trait<Error=.., Param=..> with two different bindings} x owned / borrowed: to_json_string parsed == {\"addr\": s} with exactly one member; identical bytes and identical schema_for! across all T; schema titled Remote with the single required property addr; from_json of the model's own text gives a handle whose as_ref() is the address; update_admin / clear_admin address the handle's contract. Non-trivial = every distinct address (classes: needs JSON escaping / plain).",
+            &["type parameters are local stand-ins (the encoding must not depend on them)"]),
         "C07" => reply_family(ctx, true, "fam_reply",
             "fam_reply programs; `cases` replies per program: every declared id and ids belonging to no handler, Ok(SubMsgResponse{0..3 events, data by class, 0..2 msg responses}) / Err(text), any gas_used, payload built by the generated sub-message builder or garbage; through sv::dispatch_reply and the generated reply entry point; reference model computed from the program model: covered outcome => exactly the declared method runs once with the documented arguments and context (gas, env, storage; events/msg responses for success methods), uncovered success => events+data passed through, uncovered failure => that error as the contract's error, unknown id / undecodable payload => error and no handler. Non-trivial = uncovered outcome or an `always` handler.",
             &[A_ECHO, A_NATIVE, A_REPLY, "valid payload bytes are obtained from the generated builder (its agreement with dispatch is C08)"]),
